@@ -47,7 +47,7 @@ LEMMAS = {
 UNVERIFIED = {"C28": [
     "only the position conversions are under contract here (they do not panic, and line_char_to_offset returns an in-range character boundary for every line / character); what each handler does with that offset (completions, hover, signature help ...) is covered by the bounded position sweep only",
 ], "C29": [
-    "the callers of these four functions in lsp.rs (handle_* request handlers): that they pass a Garden position whose offsets are char boundaries of the same text and whose line numbers are the lines of those offsets (that is C23's pos_ok, proved for lexer positions only)",
+    "the callers of these four functions in lsp.rs (handle_* request handlers): that they pass a Garden position of the same text whose line numbers are the lines of its offsets (that is C23's pos_ok, proved for lexer positions only); since 4e64319 this matters for exactness only: for an offset of another text the conversion is proved not to panic and to give the position of the last character boundary at or before it",
     "second sentence of C29 (text edits applied as LSP defines give the command-line result): every edit the server returns for formatting / code actions replaces whole_document_range(src) by the new text, so it reduces to whole_document_range covering the document (proved here) and to the handlers passing the same offsets to the same refactoring functions (not under contract); rename edits (handle_rename) are per-occurrence ranges built by garden_pos_to_lsp_range (proved here)",
     "`as u32` truncation of line/character: the contracts state equality of the truncated values; documents with more than u32::MAX lines or UTF-16 units on a line are outside the LSP protocol",
 ]}
